@@ -33,6 +33,8 @@ func main() {
 		record(os.Args[2:])
 	case "eval":
 		evalCmd(os.Args[2:])
+	case "funcs":
+		funcsCmd(os.Args[2:])
 	case "gram":
 		gram(os.Args[2:])
 	case "total":
